@@ -232,7 +232,8 @@ impl Acc {
 		}
 	}
 	fn sample(&mut self, v: Value) {
-		if self.samples.len() < 8 {
+		let kind = v["kind"].as_str().unwrap_or("?").to_string();
+		if self.samples.iter().filter(|s| s["kind"].as_str() == Some(kind.as_str())).count() < 2 {
 			self.samples.push(v);
 		}
 	}
@@ -512,7 +513,14 @@ fn round_seed(seed: u64, shard: u64, round: u64) -> u64 {
 	mix(mix(mix(seed, 0xC12), shard), round)
 }
 
-fn build_pool(seed: u64, shard: u64, round: u64, threads: usize) -> Pool {
+/// `None` when `deadline` passed before every transaction was built.
+fn build_pool(
+	seed: u64,
+	shard: u64,
+	round: u64,
+	threads: usize,
+	deadline: Option<Instant>,
+) -> Option<Pool> {
 	let rs = round_seed(seed, shard, round);
 	let world = World::new(rs);
 	let mut pl = Planner {
@@ -628,7 +636,7 @@ fn build_pool(seed: u64, shard: u64, round: u64, threads: usize) -> Pool {
 				init_thread(true);
 				loop {
 					let i = next.fetch_add(1, std::sync::atomic::Ordering::SeqCst);
-					if i >= n {
+					if i >= n || deadline.map(|d| Instant::now() >= d).unwrap_or(false) {
 						break;
 					}
 					let b = build_spec(&world, &specs[i]);
@@ -639,6 +647,9 @@ fn build_pool(seed: u64, shard: u64, round: u64, threads: usize) -> Pool {
 	});
 	for (i, b) in results.into_inner().unwrap() {
 		slots[i] = Some(b);
+	}
+	if slots.iter().any(|s| s.is_none()) {
+		return None;
 	}
 	let base: Vec<Base> = slots.into_iter().map(|s| s.expect("built")).collect();
 
@@ -659,7 +670,7 @@ fn build_pool(seed: u64, shard: u64, round: u64, threads: usize) -> Pool {
 		}
 	}
 	let cb_key = world.key(next_key + 1000);
-	Pool {
+	Some(Pool {
 		world,
 		shard,
 		round,
@@ -669,7 +680,7 @@ fn build_pool(seed: u64, shard: u64, round: u64, threads: usize) -> Pool {
 		linked,
 		coinbases: HashMap::new(),
 		cb_key,
-	}
+	})
 }
 
 // ------------------------------------------------------------------ facts about a transaction
@@ -1475,6 +1486,13 @@ fn run_case(cx: &mut CaseCtx, p: &mut Prng, acc: &mut Acc) {
 							);
 						} else {
 							acc.count("deaggregations_equal_and_valid", 1);
+							if case % 32 == 1 {
+								acc.sample(json!({
+									"kind": "deaggregate", "shard": shard, "round": round, "case": case,
+									"operands": n_ops, "subset_operands": sub_idx,
+									"remainder": {"inputs": f.inputs.len(), "outputs": f.outputs.len(), "kernels": f.kernels.len(), "offset_zero": rz == "zero"},
+								}));
+							}
 						}
 					}
 				}
@@ -1812,7 +1830,17 @@ fn run_shard(cfg: &Cfg, shard: u64, acc: &mut Acc) {
 		if t0.elapsed() >= budget {
 			break;
 		}
-		let mut pool = build_pool(cfg.seed, shard, round, cfg.build_threads);
+		// a pool costs ~3 s of CPU: do not start one that cannot be used any more
+		if round > 0 && t0.elapsed() + Duration::from_secs(5) >= budget {
+			break;
+		}
+		let mut pool = match build_pool(cfg.seed, shard, round, cfg.build_threads, Some(t0 + budget)) {
+			Some(p) => p,
+			None => {
+				acc.count("pools_abandoned_at_deadline", 1);
+				break;
+			}
+		};
 		acc.count("pools_built", 1);
 		if !check_base_txs(&pool, acc) {
 			continue;
@@ -1931,7 +1959,7 @@ fn main() {
 			.unwrap_or(Value::Null);
 		let c = &v["case"];
 		let (shard, round) = (c["shard"].as_u64().unwrap_or(0), c["round"].as_u64().unwrap_or(0));
-		let mut pool = build_pool(run.seed, shard, round, 8);
+		let mut pool = build_pool(run.seed, shard, round, 8, None).expect("pool");
 		if check_base_txs(&pool, &mut acc) {
 			match c["case"].as_u64() {
 				Some(case) => run_one(&mut pool, run.seed, case, &mut acc),
@@ -1947,7 +1975,7 @@ fn main() {
 			seed: run.seed,
 			budget_s: 60.0,
 			max_rounds: 1,
-			cases_per_round: 60,
+			cases_per_round: 100,
 			round_cap_s: 60.0,
 			build_threads: 8,
 		};
@@ -1955,8 +1983,8 @@ fn main() {
 	} else {
 		let cores = std::thread::available_parallelism().map(|n| n.get()).unwrap_or(4);
 		let shards = cores.saturating_sub(2).clamp(2, 14) as u64;
-		let budget_s: f64 = run.tier.pick(44.0, 440.0);
-		let max_rounds: u64 = run.tier.pick(5, 50);
+		let budget_s: f64 = run.tier.pick(52.0, 440.0);
+		let max_rounds: u64 = run.tier.pick(8, 60);
 		let exe = std::env::current_exe().expect("current exe");
 		let mut kids = vec![];
 		for s in 0..shards {
@@ -1987,6 +2015,27 @@ fn main() {
 				Err(e) => run.inconclusive(&format!("cannot spawn worker {}: {}", s, e)),
 			}
 		}
+		// hard deadline: a worker that is still running long after its budget is killed (-> inconclusive)
+		let pids: Vec<u32> = kids.iter().map(|(_, c)| c.id()).collect();
+		let done = std::sync::Arc::new(std::sync::atomic::AtomicBool::new(false));
+		{
+			let done = done.clone();
+			let hard = Duration::from_secs_f64(budget_s + run.tier.pick(25.0, 90.0));
+			std::thread::spawn(move || {
+				let t = Instant::now();
+				while t.elapsed() < hard {
+					std::thread::sleep(Duration::from_millis(200));
+					if done.load(std::sync::atomic::Ordering::SeqCst) {
+						return;
+					}
+				}
+				for p in pids {
+					unsafe {
+						libc::kill(p as i32, libc::SIGKILL);
+					}
+				}
+			});
+		}
 		// drain every worker's stdout concurrently
 		let handles: Vec<_> = kids
 			.into_iter()
@@ -2014,6 +2063,7 @@ fn main() {
 				_ => run.inconclusive(&format!("worker {}: wait failed", s)),
 			}
 		}
+		done.store(true, std::sync::atomic::Ordering::SeqCst);
 		acc.count("workers_completed", ok_workers);
 		run.require("worker processes completed", ok_workers, shards);
 	}
@@ -2036,7 +2086,7 @@ fn main() {
 	for s in &acc.samples {
 		let k = s["kind"].as_str().unwrap_or("?").to_string();
 		let n = kinds_seen.entry(k).or_insert(0);
-		if *n < 3 {
+		if *n < 2 {
 			run.sample(s.clone());
 			*n += 1;
 		}
@@ -2053,7 +2103,7 @@ fn main() {
 		// minimum observations; sanitizer runs use ~1/10 of quick
 		let scale = |q: u64, t: u64| -> u64 {
 			if san {
-				(q / 40).max(1)
+				(q / 60).max(1)
 			} else {
 				match run.tier {
 					Tier::Quick => q,
@@ -2061,20 +2111,20 @@ fn main() {
 				}
 			}
 		};
-		run.require("aggregates checked", acc.c("aggregates_checked"), scale(2000, 20000));
-		run.require("aggregates with cut-through pairs > 0", acc.c("aggregates_with_cut_through"), scale(700, 7000));
-		run.require("aggregates with chain depth >= 3", acc.c("shape_chain_depth_ge3"), scale(100, 1000));
-		run.require("aggregates with a diamond (fork and join)", acc.c("shape_diamond_join_and_fork"), scale(40, 400));
-		run.require("aggregates with multi-kernel operands", acc.c("aggregates_with_multi_kernel_operands"), scale(400, 4000));
-		run.require("aggregates with HeightLocked kernels", acc.c("aggregates_with_height_locked_kernel"), scale(400, 4000));
-		run.require("aggregates with NRD kernels", acc.c("aggregates_with_nrd_kernel"), scale(400, 4000));
-		run.require("aggregates of all-zero offsets", acc.c("offset_class_allzero"), scale(80, 800));
-		run.require("aggregates of mixed zero/non-zero offsets", acc.c("offset_class_mixed"), scale(400, 4000));
-		run.require("permutations checked", acc.c("permutations_checked"), scale(40000, 400000));
-		run.require("groupings checked", acc.c("groupings_checked"), scale(10000, 100000));
-		run.require("deaggregations checked", acc.c("deaggregations_checked"), scale(1200, 12000));
-		run.require("hydrations checked", acc.c("hydrations_checked"), scale(3000, 30000));
-		run.require("kernel short ids checked", acc.c("short_ids_checked"), scale(20000, 200000));
+		run.require("aggregates checked", acc.c("aggregates_checked"), scale(600, 4800));
+		run.require("aggregates with cut-through pairs > 0", acc.c("aggregates_with_cut_through"), scale(220, 1760));
+		run.require("aggregates with chain depth >= 3", acc.c("shape_chain_depth_ge3"), scale(70, 560));
+		run.require("aggregates with a diamond (fork and join)", acc.c("shape_diamond_join_and_fork"), scale(50, 400));
+		run.require("aggregates with multi-kernel operands", acc.c("aggregates_with_multi_kernel_operands"), scale(170, 1360));
+		run.require("aggregates with HeightLocked kernels", acc.c("aggregates_with_height_locked_kernel"), scale(350, 2800));
+		run.require("aggregates with NRD kernels", acc.c("aggregates_with_nrd_kernel"), scale(350, 2800));
+		run.require("aggregates of all-zero offsets", acc.c("offset_class_allzero"), scale(10, 80));
+		run.require("aggregates of mixed zero/non-zero offsets", acc.c("offset_class_mixed"), scale(350, 2800));
+		run.require("permutations checked", acc.c("permutations_checked"), scale(12000, 96000));
+		run.require("groupings checked", acc.c("groupings_checked"), scale(2500, 20000));
+		run.require("deaggregations checked", acc.c("deaggregations_checked"), scale(650, 5200));
+		run.require("hydrations checked", acc.c("hydrations_checked"), scale(1000, 8000));
+		run.require("kernel short ids checked", acc.c("short_ids_checked"), scale(9000, 72000));
 	}
 	run.finish();
 }
